@@ -119,6 +119,13 @@ theorem out_null {c s s' t l o} (st : step c s t l = some (s', o)) (ho : o = .nu
   obtain ⟨rfl, rfl⟩ := st
   simp_all
 
+/-- only `destroy` answers `destroyed` -/
+theorem out_destroyed {c s s' t l o b} (st : step c s t l = some (s', o)) (ho : o = .destroyed b) :
+    l = .destroy ∧ b = destroyOk c s ∧ quiescent c s ∧ s'.enqd = s.enqd ∧ s'.deqd = s.deqd ∧ s'.chain = s.chain ∧
+    s'.isDummy = s.isDummy := by
+  cases l <;> step_split st <;> (try (obtain ⟨rfl, rfl⟩ := st; simp at ho; done))
+  all_goals (obtain ⟨rfl, rfl⟩ := st; simp only [Out.destroyed.injEq] at ho; subst ho; simp_all [tick])
+
 /-- the enqueue history grows only at a successful link CAS of a user node -/
 theorem step_enqd {c s s' t l o} (st : step c s t l = some (s', o)) :
     s'.enqd = s.enqd ∨
